@@ -531,6 +531,17 @@ func runC06(c *core.Ctx, i int) {
 		_ = lib.SchemaFor
 		runtime.LockOSThread()
 		c06e = &c06env{rb: avro.NewReadBuf(nil)}
+		// the first timestamps this (fresh) process parses spell a zero offset numerically
+		for _, ts := range []string{"2000-01-01T00:00:00+00:00", "2000-01-01T00:00:00-00:00", "1999-12-31T23:59:59.5+00:00"} {
+			in := append(refavro.AppendLong(nil, int64(len(ts))), ts...)
+			if _, ok := c06e.call(c, "time.StringCodec.Read", "first-timestamp-of-the-process", in, true, 1, func() error {
+				var t avrotimeTime
+				c06e.rb.Reset(in)
+				return avrotime.StringCodec{}.Read(c06e.rb, unsafe.Pointer(&t))
+			}); !ok {
+				return
+			}
+		}
 	}
 	e := c06e
 	r := c.Rand(i, 0)
@@ -754,6 +765,18 @@ func runC06(c *core.Ctx, i int) {
 			}
 			if !e.schemaAndCodec(c, "schema-text-mutation", text) {
 				return
+			}
+		}
+		// numeric attributes with hostile values (a fixed's size comes from the schema, not from the wire), in
+		// positions that are decoded as well as positions that are only skipped
+		for _, size := range []string{"-1", "-2", "-8", "-16", "-2147483648", "-1099511627776", "1099511627776", "4611686018427387904", "9223372036854775807", "-9223372036854775808", "1e3", "2.5", "\"8\""} {
+			fx := `{"type":"fixed","name":"fx","size":` + size + `}`
+			for _, wrap := range []string{fx, `{"type":"array","items":` + fx + `}`, `{"type":"map","values":` + fx + `}`, `["null",` + fx + `]`, `[` + fx + `,"long","string"]`} {
+				text := `{"type":"record","name":"r","fields":[{"name":"head","type":"long"},{"name":"a","type":` + wrap + `},{"name":"tail","type":"long"}]}`
+				c.Count("schema-hostile-size", 1)
+				if !e.schemaAndCodec(c, "schema-hostile-size", text) {
+					return
+				}
 			}
 		}
 		// deep nesting
